@@ -375,4 +375,84 @@ def checkVar (t : Tables) : ADecl → Res Unit
       if truthyAt "dimension" attrs ∧ ptrs.isEmpty then .reject "dimension:only-pointer"
       else parseDim attrs
 
+/-! ## check_fcn_attrs with `fortran_generic`
+
+```
+if node.fortran_generic:
+    for generic in node.fortran_generic:
+        for garg in generic.decls:
+            self.check_arg_attrs(generic, garg, node.options)
+        check_implied_attrs(node, generic.decls)
+else:
+    check_implied_attrs(node, ast.params)
+```
+-/
+
+/-- the per-argument loop over one `fortran_generic` entry: `check_arg_attrs(generic, garg, node.options)`
+    (`node` is the FortranGeneric, not None: intents are defaulted); unlike the loop over `ast.params`
+    there is no "must have a name" test -/
+def checkGenericArgs (t : Tables) (patterns : List Str) : List ADecl → Res (List Norm)
+  | [] => .ok []
+  | d :: ds =>
+    match checkArg t patterns true d with
+    | .reject i => .reject i
+    | .crash e => .crash e
+    | .ok a =>
+      match checkGenericArgs t patterns ds with
+      | .ok b => .ok (a ++ b)
+      | .reject i => .reject i
+      | .crash e => .crash e
+
+/-- one entry: all its arguments, then `check_implied_attrs(node, generic.decls)` against the entry's own names -/
+def checkGeneric (t : Tables) (patterns : List Str) (g : List ADecl) : Res (List Norm) :=
+  match checkGenericArgs t patterns g with
+  | .reject i => .reject i
+  | .crash e => .crash e
+  | .ok a =>
+    match checkImpliedAll (g.map (·.name)) g with
+    | .ok _ => .ok a
+    | .reject i => .reject i
+    | .crash e => .crash e
+
+/-- the loop over all entries, in order -/
+def checkGenerics (t : Tables) (patterns : List Str) : List (List ADecl) → Res (List Norm)
+  | [] => .ok []
+  | g :: gs =>
+    match checkGeneric t patterns g with
+    | .reject i => .reject i
+    | .crash e => .crash e
+    | .ok a =>
+      match checkGenerics t patterns gs with
+      | .ok b => .ok (a ++ b)
+      | .reject i => .reject i
+      | .crash e => .crash e
+
+/-- `check_fcn_attrs` of a function whose `fortran_generic` list is `gens` (the empty list is falsy in Python:
+    then the implied expressions are checked against the function's own parameters, `checkFcn`) -/
+def checkFcnG (t : Tables) (patterns : List Str) (gens : List (List ADecl)) : ADecl → Res (List Norm)
+  | .mk ptrs hasArray _ hasTypemap tmName tmBase _ _ _ _ _ _ attrs params =>
+    match firstIllegal t.fcnAttrs attrs with
+    | some k => .reject ("fcn:illegal-attribute:" ++ String.ofList k)
+    | none => do
+      let intent : Option Str := if isFunctionResult ptrs tmName then some "result".toList else none
+      let (deref, rank) ← checkCommon t patterns ptrs hasArray hasTypemap tmName tmBase intent attrs
+      let ps := params.getD []
+      let args ← checkArgs t patterns true ps
+      let gargs ← (if gens.isEmpty then (do checkImpliedAll (ps.map (·.name)) ps; .ok [])
+                   else checkGenerics t patterns gens)
+      parseDim attrs
+      .ok ({ intent := intent, valueTrue := truthyAt "value" attrs, deref := deref, rank := rank } :: (args ++ gargs))
+
+/-! ## where an attribute name outside the allowed list can sit: the declaration itself or, for a
+function-pointer argument, any of its parameters (any depth) -/
+mutual
+def illegalAt (t : Tables) : ADecl → Bool
+  | .mk _ _ _ _ _ _ _ isFptr _ _ _ _ attrs params =>
+    (firstIllegal t.argAttrs attrs).isSome ||
+      (isFptr && (match params with | some ps => illegalAny t ps | none => false))
+def illegalAny (t : Tables) : List ADecl → Bool
+  | [] => false
+  | d :: ds => illegalAt t d || illegalAny t ds
+end
+
 end Shroud.Attrs
